@@ -10,4 +10,6 @@ def obligations(tier):
     L = []
     L.append(ob("flags/algebra", "internal/jsonflags", "VerifC19Flags", [], second="cvc5", covers=["end"]))
     L.append(ob("flags/v1v2", "internal/jsonflags", "VerifC19V1V2", [], second="cvc5", covers=["end"]))
+    for k, nested in ([(1, True), (2, False)] if q else [(1, True), (2, True), (3, False)]):
+        L.append(ob("join/k=%d/nested=%d" % (k, nested), "internal/jsonopts", "VerifC19Join", [k, nested], covers=["end"], max_seconds=1200))
     return L
